@@ -55,6 +55,10 @@ def _all(tier):
         out.append({"circuit": {"kind": "pipe", "base": b, "ops": [["square"], ["conjugate"], ["integrate", [b["ids"][0], b["ids"][2]]]]}})
         out.append({"circuit": {"kind": "pipe", "base": b, "ops": [["multiply_conj"]]}})
     out.append({"circuit": {"kind": "pipe", "base": bases[0], "ops": [["evidence", {"1": 2}], ["conjugate"]]}})
+    for c in out:
+        # integrating a Categorical layer given by 'probs' uses the documented meaning of probs (they sum to one)
+        if c["circuit"]["base"].get("input") == "cat-probs" and any(o[0] == "integrate" for o in c["circuit"]["ops"]):
+            c["normalized"] = True
     return out
 
 
